@@ -4,6 +4,7 @@ import YV.Drv.XB
 import YV.Drv.C02
 import YV.Drv.C03
 import YV.Drv.Y
+import YV.Drv.T
 open Lean YV.Drv
 
 def dispatch (j : Json) : List (String × Json) :=
@@ -14,6 +15,7 @@ def dispatch (j : Json) : List (String × Json) :=
   | "c02" => C02.handle j
   | "c03" => C03.handle j
   | "yparse" => Y.handle j
+  | "ytypes" => T.handle j
   | k => [("m", Json.str ("unknown-kind:" ++ k)), ("s", Json.str "unknown-kind")]
 
 partial def loop (hin : IO.FS.Stream) (hout : IO.FS.Stream) : IO Unit := do
